@@ -77,6 +77,24 @@ std::string show(std::vector<T> const &v)
 }
 
 // single-pass input iterator over a vector; throws sim::Fault on the simulator's order
+// an element type that is not T but converts to it (and has another size): ranges of it are
+// legitimate sources for the range constructor and range insert, element-wise conversion required
+template <typename T>
+struct Wide
+{
+  T v;
+  long pad;
+  operator T() const { return v; }
+};
+template <typename T>
+std::vector<Wide<T>> widen_range(std::vector<T> const &src)
+{
+  std::vector<Wide<T>> r;
+  for (T const &x : src)
+    r.push_back(Wide<T>{x, 0x5a5a5a5a5a5a5a5aL});
+  return r;
+}
+
 template <typename T>
 class InIt
 {
@@ -356,7 +374,16 @@ struct World
       std::vector<T> const src = fresh_n(cnt);
       long const kind = n == "ctor_il" ? 3 : static_cast<long>(op.getu("k") % 3);
       bool ok = false;
-      if (kind == 0)
+      std::vector<Wide<T>> const wsrc = widen_range(src);
+      if (kind == 0 && op.get("ot") != 0)
+      {
+        ctx.probe("range_of_another_element_type");
+        ok = guarded([&] {
+          vs.sut = op.get("a") != 0 ? std::make_unique<RV>(wsrc.begin(), wsrc.end(), alloc)
+                                    : std::make_unique<RV>(wsrc.begin(), wsrc.end());
+        });
+      }
+      else if (kind == 0)
         ok = guarded([&] {
           vs.sut = op.get("a") != 0 ? std::make_unique<RV>(src.begin(), src.end(), alloc)
                                     : std::make_unique<RV>(src.begin(), src.end());
@@ -544,6 +571,10 @@ struct World
       if (kind != 3)
         src = fresh_n(cnt);
       std::list<T> const l(src.begin(), src.end());
+      std::vector<Wide<T>> const wsrc = widen_range(src);
+      bool const other_type = kind == 0 && op.get("ot") != 0;
+      if (other_type)
+        ctx.probe("range_of_another_element_type");
       bool const realloc = r.size() + src.size() > r.capacity();
       ctx.probe(kind == 2 ? "insertr_input" : (realloc ? "insertr_fwd_realloc" : "insertr_fwd_inplace"));
       auto const p = [&] { return r.begin() + static_cast<std::ptrdiff_t>(pos); };
@@ -551,7 +582,10 @@ struct World
         switch (kind)
         {
         case 0:
-          r.insert(p(), src.begin(), src.end());
+          if (other_type)
+            r.insert(p(), wsrc.begin(), wsrc.end());
+          else
+            r.insert(p(), src.begin(), src.end());
           break;
         case 1:
           r.insert(p(), l.begin(), l.end());
@@ -1258,7 +1292,11 @@ void generate(sim::Rng &rng, sim::Plan &p, bool thorough)
       if (n == "ctor_n" || n == "ctor_range" || n == "ctor_il" || n == "insertn" || n == "insertr" || n == "resize" || n == "reserve")
         op.set("n", static_cast<long>(rng.below(static_cast<std::uint64_t>(40 * scale))));
       if (n == "ctor_range" || n == "insertr")
+      {
         op.set("k", static_cast<long>(rng.below(4)));
+        if (rng.chance(1, 3))
+          op.set("ot", 1);
+      }
       if (n == "ctor_n" || n == "ctor_range")
         op.set("a", static_cast<long>(rng.below(2)));
       if (n == "insert1" || n == "insertn" || n == "insertr" || n == "erase1")
